@@ -64,8 +64,8 @@ def _label_of(cls, it):
 def _distinct_labels(I, items, cls):
     # only EMG signals are addressed by label; calibration platforms may be value-equal
     # twins (same label, size and vertices on different channels)
-    if cls == "fpdata":
-        return
+    if cls in ("fpdata", "emg"):
+        return  # EMG: duplicate labels are allowed (addSignal takes them)
     if cls == "fpcal":
         # two platforms either differ in their label or are bit-identical twins: keeps numpy's
         # tolerance comparison (abstracted in the model) decided for every pair
@@ -194,13 +194,20 @@ def run_ops(I, cls, blk, model, ops):
             except Exception as e:  # noqa: BLE001
                 exc = e
             I.observe(f"{tag}.exc", type(exc).__name__ if exc else None)
-            if j == "absent":
+            # labels need not be unique: removal by label takes the first signal that carries
+            # it (and exactly that signal's channel)
+            hit = None
+            for q, (_, mit) in enumerate(model):
+                if I.truth(mit.label == lab):
+                    hit = q
+                    break
+            if hit is None:
                 I.prove(f"C15.{cls}.absent_label_refused_with_KeyError", isinstance(exc, KeyError), f"{type(exc).__name__ if exc else None}")
             else:
                 I.goal("removed")
                 I.prove(f"C15.{cls}.remove_by_label_succeeds", exc is None, f"{type(exc).__name__ if exc else ''}: {exc}" if exc else "")
                 if exc is None:
-                    del model[j]
+                    del model[hit]
         elif kind == "remove_index":
             n = len(model)
             i = I.int(f"{tag}.i", -n - 2, n + 2)
